@@ -1,0 +1,8 @@
+// +build verif
+
+package ints
+
+//VerifQuickSortDepth sorts a like Sort but with the given recursion depth limit, so that external verification tooling can reach the heapsort fallback without an adversarial input. It only exists in builds with the verif tag.
+func VerifQuickSortDepth(a []int, depth int) {
+	quickSort(a, 0, len(a), depth)
+}
